@@ -148,14 +148,16 @@ type cliOO struct {
 	seq       int
 	confirmed bool
 	files     map[int]*cliOpen
-	last      *Req
+	last      *Req // the last request sent
+	lastDone  *Req // the last request that advanced the seqid (its reply is the cached one)
 }
 
 type cliLO struct {
-	key   string
-	seq   int
-	files map[string]*cliLock // by fh/open-owner
-	last  *Req
+	key      string
+	seq      int
+	files    map[string]*cliLock // by fh/open-owner
+	last     *Req
+	lastDone *Req
 }
 
 type client struct {
@@ -173,7 +175,7 @@ func (c *client) reset() {
 
 func completes(st string) bool {
 	switch st {
-	case "STALE_CLIENTID", "STALE_STATEID", "BAD_STATEID", "BAD_SEQID", "BADXDR", "RESOURCE", "NOFILEHANDLE", "MOVED", "NONE", "DEAD", "PANIC", "INFLIGHT":
+	case "STALE_CLIENTID", "STALE_STATEID", "BAD_STATEID", "BAD_SEQID", "BADXDR", "RESOURCE", "NOFILEHANDLE", "MOVED", "NONE", "DEAD", "PANIC", "INFLIGHT", "PARKED":
 		return false
 	}
 	return true
@@ -195,11 +197,25 @@ func (d *randomDriver) nameOf(fh int) string { return d.nameByFile[fh] }
 
 func (d *randomDriver) pick(n int) int { return d.rng.Intn(n) }
 
+// nxt is the client's side of the seqid rule: 2^32-1 (written -1) is
+// followed by 1.
+func nxt(seq int) int {
+	if seq == -1 {
+		return 1
+	}
+	return seq + 1
+}
+
 func (d *randomDriver) oo(c *client) *cliOO {
 	k := []string{"o1", "o2", "o3"}[d.pick(d.nOO)]
 	o, ok := c.oos[k]
 	if !ok {
 		o = &cliOO{key: k, files: map[int]*cliOpen{}}
+		if d.pick(5) == 0 {
+			// the first requests of this open-owner carry the seqids
+			// 2^32-2, 2^32-1, then the seqid wraps to 1
+			o.seq = -3 + d.pick(2)
+		}
 		c.oos[k] = o
 	}
 	return o
@@ -210,6 +226,9 @@ func (d *randomDriver) lo(c *client) *cliLO {
 	l, ok := c.los[k]
 	if !ok {
 		l = &cliLO{key: k, files: map[string]*cliLock{}}
+		if d.pick(5) == 0 {
+			l.seq = -3 + d.pick(2)
+		}
 		c.los[k] = l
 	}
 	return l
@@ -273,6 +292,13 @@ func (d *randomDriver) rangeArgs(r *Req) {
 		}
 	case 3:
 		r.E = nPos
+	case 4:
+		// the last byte alone: offset 2^64-1, length all ones / length 1
+		r.S, r.E = nPos, nPos
+		r.Lenk = []string{"eof", "eof", "one"}[d.pick(3)]
+	case 5:
+		// through the last byte, starting just before it
+		r.S, r.E, r.Lenk = nPos-1, nPos-1, "eof"
 	}
 	r.Lt = []string{"R", "W", "R", "W", "RW", "WW"}[d.pick(6)]
 	if d.pick(40) == 0 {
@@ -318,30 +344,52 @@ func (d *randomDriver) perturb(r *Req) {
 			r.St = d.e.lastSid() + 1 + d.pick(2)
 		}
 	}
-	if r.Seq < 0 {
-		r.Seq = 0
-	}
-	if r.Lseq < 0 {
-		r.Lseq = 0
-	}
 }
 
 func (e *env) lastSid() int { return len(e.sidTok) }
 
 // afterOO updates the client's view of an open-owner after a request.
 func afterOO(o *cliOO, r Req, rep Rep) {
-	if rep.St == "INFLIGHT" {
+	if rep.St == "INFLIGHT" || rep.St == "PARKED" {
 		return
 	}
 	rc := r
+	rc.Gate = false
 	o.last = &rc
-	if completes(rep.St) && (r.Seq == o.seq+1 || (r.Op == "OPEN" && !o.confirmed)) {
+	if completes(rep.St) && (r.Seq == nxt(o.seq) || (r.Op == "OPEN" && !o.confirmed)) {
 		o.seq = r.Seq
+		o.lastDone = &rc
 	}
+}
+
+// openPending returns the id of the OPEN that is in flight (0 = none).
+func (e *env) openPending() int {
+	for id, p := range e.pending {
+		if p.req.Op == "OPEN" {
+			return id
+		}
+	}
+	return 0
 }
 
 func (d *randomDriver) step() {
 	e := d.e
+	if id := e.openPending(); id > 0 {
+		// While an OPEN is in flight: no more than one request waits for
+		// it (the order in which several wake up is not defined), now
+		// and then its retransmission is sent while it is in flight, and
+		// it is not left in flight for long.
+		if len(e.parked) > 0 || d.pick(4) == 0 {
+			e.finish(id)
+			return
+		}
+		if d.pick(4) == 0 {
+			dup := e.pending[id].req
+			dup.Gate = false
+			e.do(dup)
+			return
+		}
+	}
 	c := d.clients[d.pick(len(d.clients))]
 	switch k := d.pick(100); {
 	case k < 4 || c.cid == 0:
@@ -379,13 +427,21 @@ func (d *randomDriver) step() {
 		o := d.oo(c)
 		var r Req
 		if f := d.anyOpen(o); f != nil && d.pick(5) == 0 {
-			r = rOpenPrev(c.cid, o.key, o.seq+1, f.fh, 1+d.pick(3))
+			r = rOpenPrev(c.cid, o.key, nxt(o.seq), f.fh, 1+d.pick(3))
 			if d.pick(8) == 0 {
 				r.Claim = []string{"PREVDELEG", "DCUR", "DPREV"}[d.pick(3)]
 			}
+			// Hold it while it re-opens the file (a reclaim does not go
+			// through the directory, so every other request can still
+			// be served; an unconfirmed open-owner would be
+			// re-initialised, which closes its files only when the OPEN
+			// returns).
+			if o.confirmed && len(e.pending) == 0 && d.pick(2) == 0 {
+				r.Gate = true
+			}
 		} else {
 			how := []string{"UNCHECKED", "UNCHECKED", "NOCREATE", "NOCREATE", "GUARDED", "EXCLUSIVE", "UNCHECKED0"}[d.pick(7)]
-			r = rOpen(c.cid, o.key, o.seq+1, d.names[d.pick(len(d.names))], 1+d.pick(3), how)
+			r = rOpen(c.cid, o.key, nxt(o.seq), d.names[d.pick(len(d.names))], 1+d.pick(3), how)
 		}
 		switch d.pick(30) {
 		case 0:
@@ -421,7 +477,7 @@ func (d *randomDriver) step() {
 			}
 			f.t, f.q, f.share = rep.T, rep.Q, f.share|r.Share
 			if rep.Conf && d.pick(6) != 0 {
-				r2 := rSid("OPEN_CONFIRM", f.fh, f.t, f.q, o.seq+1)
+				r2 := rSid("OPEN_CONFIRM", f.fh, f.t, f.q, nxt(o.seq))
 				d.perturb(&r2)
 				rep2, _ := e.do(r2)
 				afterOO(o, r2, rep2)
@@ -437,7 +493,7 @@ func (d *randomDriver) step() {
 		if f == nil {
 			return
 		}
-		r := rSid("OPEN_CONFIRM", f.fh, f.t, f.q, o.seq+1)
+		r := rSid("OPEN_CONFIRM", f.fh, f.t, f.q, nxt(o.seq))
 		d.perturb(&r)
 		rep, _ := e.do(r)
 		afterOO(o, r, rep)
@@ -451,7 +507,7 @@ func (d *randomDriver) step() {
 		if f == nil {
 			return
 		}
-		r := rDowngrade(f.fh, f.t, f.q, o.seq+1, 1+d.pick(3))
+		r := rDowngrade(f.fh, f.t, f.q, nxt(o.seq), 1+d.pick(3))
 		if d.pick(20) == 0 {
 			r.Deny = 1
 		}
@@ -466,12 +522,12 @@ func (d *randomDriver) step() {
 			if r.Share != 3 && d.pick(3) != 0 {
 				var r2 Req
 				if d.pick(3) == 0 {
-					r2 = rOpenPrev(c.cid, o.key, o.seq+1, f.fh, 1+d.pick(3))
+					r2 = rOpenPrev(c.cid, o.key, nxt(o.seq), f.fh, 1+d.pick(3))
 				} else {
-					r2 = rOpen(c.cid, o.key, o.seq+1, "", 1+d.pick(3), "NOCREATE")
+					r2 = rOpen(c.cid, o.key, nxt(o.seq), "", 1+d.pick(3), "NOCREATE")
 					r2.Claim, r2.Fh = "PREV", f.fh
 					if n := d.nameOf(f.fh); n != "" {
-						r2 = rOpen(c.cid, o.key, o.seq+1, n, 1+d.pick(3), "NOCREATE")
+						r2 = rOpen(c.cid, o.key, nxt(o.seq), n, 1+d.pick(3), "NOCREATE")
 					}
 				}
 				rep2, _ := e.do(r2)
@@ -487,7 +543,7 @@ func (d *randomDriver) step() {
 		if f == nil {
 			return
 		}
-		r := rSid("CLOSE", f.fh, f.t, f.q, o.seq+1)
+		r := rSid("CLOSE", f.fh, f.t, f.q, nxt(o.seq))
 		d.perturb(&r)
 		rep, _ := e.do(r)
 		afterOO(o, r, rep)
@@ -506,20 +562,23 @@ func (d *randomDriver) step() {
 			return
 		}
 		var r Req
+		// (A lock-owner that already has lock state on the file through
+		// another open-owner is refused when it asks for a second one:
+		// now and then that is tried, mostly the existing lock state id
+		// is used.)
 		lk, have := l.files[lockKey(f.fh, o.key)]
-		if !have {
-			// One lock-owner locking one file through two open-owners
-			// is left to TestFindings (see there).
+		if !have && d.pick(3) != 0 {
 			for _, other := range l.files {
 				if other.fh == f.fh {
-					return
+					lk, have = other, true
+					break
 				}
 			}
 		}
 		if have && d.pick(12) != 0 {
-			r = rLock(lk.fh, lk.t, lk.q, l.seq+1, "R", 0, 1)
+			r = rLock(lk.fh, lk.t, lk.q, nxt(l.seq), "R", 0, 1)
 		} else {
-			r = rLockNew(f.fh, f.t, f.q, o.seq+1, c.cid, l.key, l.seq+1, "R", 0, 1)
+			r = rLockNew(f.fh, f.t, f.q, nxt(o.seq), c.cid, l.key, nxt(l.seq), "R", 0, 1)
 			if d.pick(25) == 0 {
 				r.Cid = d.clients[d.pick(len(d.clients))].cid
 			}
@@ -532,8 +591,9 @@ func (d *randomDriver) step() {
 		if r.NewLo {
 			afterOO(o, r, rep)
 		}
-		if completes(rep.St) && (r.Lseq == l.seq+1 || (r.NewLo && len(l.files) == 0)) {
+		if completes(rep.St) && (r.Lseq == nxt(l.seq) || (r.NewLo && len(l.files) == 0)) {
 			l.seq = r.Lseq
+			l.lastDone = &rc
 		}
 		if rep.St == "OK" {
 			if r.NewLo {
@@ -551,14 +611,15 @@ func (d *randomDriver) step() {
 		if lk == nil {
 			return
 		}
-		r := rLocku(lk.fh, lk.t, lk.q, l.seq+1, 0, 1)
+		r := rLocku(lk.fh, lk.t, lk.q, nxt(l.seq), 0, 1)
 		d.rangeArgs(&r)
 		d.perturb(&r)
 		rep, _ := e.do(r)
 		rc := r
 		l.last = &rc
-		if completes(rep.St) && r.Lseq == l.seq+1 {
+		if completes(rep.St) && r.Lseq == nxt(l.seq) {
 			l.seq = r.Lseq
+			l.lastDone = &rc
 		}
 		if rep.St == "OK" && rep.T == lk.t {
 			lk.q = rep.Q
@@ -629,16 +690,24 @@ func (d *randomDriver) step() {
 			e.do(rPutfh(d.anyFile()))
 		}
 	case k < 97:
-		// exact retransmission of the last request of an owner
+		// exact retransmission of the last request of an owner, or of
+		// the last one that was executed (with rejected requests in
+		// between: they must have left the cached reply alone)
 		var cands []*Req
 		for _, key := range []string{"o1", "o2", "o3"} {
 			if o, ok := c.oos[key]; ok && o.last != nil {
 				cands = append(cands, o.last)
+				if o.lastDone != nil {
+					cands = append(cands, o.lastDone)
+				}
 			}
 		}
 		for _, key := range []string{"l1", "l2"} {
 			if l, ok := c.los[key]; ok && l.last != nil {
 				cands = append(cands, l.last)
+				if l.lastDone != nil {
+					cands = append(cands, l.lastDone)
+				}
 			}
 		}
 		if len(cands) > 0 {
@@ -655,7 +724,7 @@ func (d *randomDriver) step() {
 // and must be closed by the server exactly once.
 func (d *randomDriver) downUp(c *client, o *cliOO, f *cliOpen) {
 	e := d.e
-	r := rDowngrade(f.fh, f.t, f.q, o.seq+1, 1+d.pick(2))
+	r := rDowngrade(f.fh, f.t, f.q, nxt(o.seq), 1+d.pick(2))
 	rep, _ := e.do(r)
 	afterOO(o, r, rep)
 	if rep.St != "OK" {
@@ -665,9 +734,9 @@ func (d *randomDriver) downUp(c *client, o *cliOO, f *cliOpen) {
 	if d.pick(5) == 0 {
 		return
 	}
-	r2 := rOpenPrev(c.cid, o.key, o.seq+1, f.fh, 1+d.pick(3))
+	r2 := rOpenPrev(c.cid, o.key, nxt(o.seq), f.fh, 1+d.pick(3))
 	if n := d.nameOf(f.fh); n != "" && d.pick(2) == 0 {
-		r2 = rOpen(c.cid, o.key, o.seq+1, n, 1+d.pick(3), "NOCREATE")
+		r2 = rOpen(c.cid, o.key, nxt(o.seq), n, 1+d.pick(3), "NOCREATE")
 	}
 	rep2, _ := e.do(r2)
 	afterOO(o, r2, rep2)
